@@ -18,6 +18,26 @@ CLAIMS = {
         ref="5/C05"),
 }
 
+CLAIMS["C16"] = dict(
+    cat="proof",
+    text="Contracts on the real libavoid predicates. Leaf layer (complete over the stated finite domain): vecDir, colinear, pointOnLine, inBetween equal the exact "
+         "integer orientation / on-segment oracle bit-precisely for integer coordinates in a small grid. Caller layer (all doubles): segmentIntersect and "
+         "segmentShapeIntersect equal their textbook definitions over an uninterpreted orientation; Point::operator==/!=; symmetry lemmas over the contracts.",
+    note=BASE_TB + "Paper composition of leaf and caller layers (substitution of the exact orientation for the uninterpreted symbol). Grid side limited by solver time "
+         "for FP multiplication. Returned intersection coordinates not claimed; segment end points of pointOnLine/inBetween unconstrained.",
+    tech="CBMC code contracts on verbatim C++ slices; two-layer proof (bit-precise leaf on an integer grid + callers over an uninterpreted orientation)",
+    ref="5/C16")
+CLAIMS["C01"] = dict(
+    cat="proof",
+    text="Soundness-on-normal-return chain of the VPSC solvers under contract: Constraint::slack equals the separation's slack; the final scans of IncSolver::satisfy, "
+         "Solver::satisfy, Solver::refine (tail fragments with loop contracts, any number of constraints) leave no constraint with slack < -1e-10 from EVERY state the "
+         "unverified merge/split machinery could leave; solve()/IncSolver::solve() preserve this and copy positions last; addConstraint adds an inactive constraint only. "
+         "'Flagged iff infeasible', finiteness and optimality are undecided residue.",
+    note=BASE_TB + "Ghost-cell composition on paper; copyResult's all-n step is bounded (n<=4) plus an unbounded body fragment; scan jobs run with --no-pointer-check "
+         "(elements other than the ghost one unconstrained); slack formula proved in scaled-integer mode (machine arithmetic treated as mathematical).",
+    tech="CBMC code contracts + loop contracts on tail fragments of the real solver functions; ghost index/ghost cell for the universally quantified scan postcondition",
+    ref="5/C01")
+
 NA = {
     "C02": "Optimality of solve() is a KKT/convergence statement about an iterative active-set method over heap-allocated block trees in IEEE arithmetic; per-function facts need FP multiply/divide reasoning no installed back end finishes (DESIGN 3) and would not imply agreement with a QP oracle.",
     "C03": "'No route segment crosses an obstacle' is emergent from visibility-graph construction (std::list/std::set sweeps), A*, nudging and hyperedge improvement; only the leaf predicates are reachable and they are claimed under C16.",
@@ -32,7 +52,7 @@ NA = {
     "C19": "Decompositions over std::map-of-shared_ptr graphs and a sweep-line planariser; no function within the front end's reach carries the partition property.",
 }
 
-PENDING = {k: 'claim designed in DESIGN.md section 5 but its contract jobs are not built at this commit; not claimed yet' for k in ['C01','C09','C10','C15','C16','C17','C18','C20']}  # id -> reason (claims planned in DESIGN.md whose jobs are not built yet)
+PENDING = {k: 'claim designed in DESIGN.md section 5 but its contract jobs are not built at this commit; not claimed yet' for k in ['C09','C10','C15','C17','C18','C20']}  # id -> reason (claims planned in DESIGN.md whose jobs are not built yet)
 
 
 def main():
